@@ -82,7 +82,12 @@ def main(argv=None) -> int:
             print(f"   self-test battery: {st['summary']}")
             for r in st["results"]:
                 print(f"     [{r['verdict']}] {r['kind']} {r['id']}: {r['detail']}")
-            if st["broken"]:
+            if st["broken"] and new_failures(chk):
+                # the tree itself violates the property: that verdict stands (exit 1 below); the battery's expectations are
+                # stated for a tree on which the rules are silent and are not comparable here
+                print("   note: self-test battery not comparable on a tree that violates the property: " + ", ".join(st["broken"]))
+                extra["selftest_not_comparable"] = st["broken"]
+            elif st["broken"]:
                 raise AnalysisError(
                     "self-test battery: the checker did not behave as specified on "
                     + ", ".join(st["broken"])
